@@ -102,3 +102,45 @@ def json_copy(x):
     import json
 
     return json.loads(json.dumps(x))
+
+
+# ----------------------------------------------------------------------------------------------
+# tokenizers from parameter dicts (see model.py, "token-stream decoder")
+# ----------------------------------------------------------------------------------------------
+
+
+def make_tokenizer(params: dict):
+    from maze_dataset.tokenization import (
+        AdjListTokenizers,
+        CoordTokenizers,
+        EdgeGroupings,
+        EdgePermuters,
+        EdgeSubsets,
+        MazeTokenizerModular,
+        PathTokenizers,
+        PromptSequencers,
+        StepSizes,
+        StepTokenizers,
+        TargetTokenizers,
+    )
+
+    cp = params["coord"]
+    coord = CoordTokenizers.UT() if cp["kind"] == "UT" else CoordTokenizers.CTT(pre=cp["pre"], intra=cp["intra"], post=cp["post"])
+    ap = params["adj"]
+    subset = {"all": EdgeSubsets.AllLatticeEdges(), "conn": EdgeSubsets.ConnectionEdges(walls=False), "walls": EdgeSubsets.ConnectionEdges(walls=True)}[ap["subset"]]
+    perm = {"sorted": EdgePermuters.SortedCoords(), "random": EdgePermuters.RandomCoords(), "both": EdgePermuters.BothCoords()}[ap["permuter"]]
+    acls = AdjListTokenizers.AdjListCoord if ap["cls"] == "coord" else AdjListTokenizers.AdjListCardinal
+    adj = acls(pre=False, post=ap["post"], shuffle_d0=ap["shuffle_d0"], edge_grouping=EdgeGroupings.Ungrouped(connection_token_ordinal=ap["ordinal"]),
+               edge_subset=subset, edge_permuter=perm)
+    pp = params["path"]
+    stepmap = {"coord": StepTokenizers.Coord, "cardinal": StepTokenizers.Cardinal, "relative": StepTokenizers.Relative, "distance": StepTokenizers.Distance}
+    path = PathTokenizers.StepSequence(
+        step_size=StepSizes.Singles() if pp["step_size"] == "singles" else StepSizes.Forks(),
+        step_tokenizers=tuple(stepmap[s]() for s in pp["steps"]),
+        pre=pp["pre"], intra=pp["intra"], post=pp["post"],
+    )
+    if params["seq"] == "AOTP":
+        seq = PromptSequencers.AOTP(coord_tokenizer=coord, adj_list_tokenizer=adj, target_tokenizer=TargetTokenizers.Unlabeled(post=params["target"]["post"]), path_tokenizer=path)
+    else:
+        seq = PromptSequencers.AOP(coord_tokenizer=coord, adj_list_tokenizer=adj, path_tokenizer=path)
+    return MazeTokenizerModular(prompt_sequencer=seq)
